@@ -55,6 +55,92 @@ def norm(v):
     return M.parse(str(v)).strip_code(normalize=True, collapse=False).strip()
 
 
+ESC_VALUES = VALS + ["a|b|c", "||", "x=y=z", "{{t|a|b}}|{{u|c=d}}", "[[l|t]]|[[m|u=v]]", "<b>p|q</b>|r", "<!-- a|b -->|c", "&#124;|", "{{{1|d}}}|e",
+                     "== a|b=c ==", "\n== [http://q/a|b c=d|e] | f ==\n", "[http://x/a|b {{t|c}}|d [[l|e]]]", "http://x/?a=b|c=d e|f", "[http://x/{{t|a}}|b]",
+                     "== {{t|a|b}} | [[l|c]] ==", "''a|b''", "* a|b\n", "{|\n| a || b\n|}", "[//x/a|b]", "mailto:a|b=c"]
+
+
+def _enc_codes(t):
+    return [len(t)] + [ord(ch) for ch in t]
+
+
+def _enc_items(code):
+    """the value as the model's item tree: Text / closed node (brackets of its own) / open node (heading, external link)"""
+    from mwparserfromhell.nodes import ExternalLink, Heading, Text
+    out = [len(code.nodes)]
+    for n in code.nodes:
+        if isinstance(n, Text):
+            out += [0] + _enc_codes(str(n))
+        elif isinstance(n, Heading):
+            eq = "=" * n.level
+            out += [2] + _enc_codes(eq) + [1] + _enc_items(n.title) + _enc_codes(eq)
+        elif isinstance(n, ExternalLink):
+            if n.brackets:
+                if n.title is not None:
+                    out += [2] + _enc_codes("[") + [2] + _enc_items(n.url) + _enc_codes(" ") + _enc_items(n.title) + _enc_codes("]")
+                else:
+                    out += [2] + _enc_codes("[") + [1] + _enc_items(n.url) + _enc_codes("]")
+            else:
+                out += [2] + _enc_codes("") + [1] + _enc_items(n.url) + _enc_codes("")
+        else:
+            out += [1] + _enc_codes(str(n))
+    return out
+
+
+def _escape_work(cases):
+    import mwparserfromhell as M
+    from mwparserfromhell.nodes import Template
+    res = []
+    for val, ch in cases:
+        code = M.parse(val)
+        enc = [ord(ch)] + _enc_codes("&#%d;" % ord(ch)) + _enc_items(code)
+        if str(code) != val:
+            res.append((None, "the value does not round-trip"))
+            continue
+        try:
+            Template._surface_escape(code, ch)
+            res.append((" ".join(map(str, enc)), str(code)))
+        except Exception as e:      # noqa: BLE001
+            res.append((" ".join(map(str, enc)), "EXC %r" % (e,)))
+    return res
+
+
+def escape_tie(c, seed):
+    """Template._surface_escape vs the extracted model (coq/Escape.v), and the property the model is proved to have, on the implementation"""
+    import mwparserfromhell as M
+    rng = random.Random(seed * 11 + 3)
+    vals = list(ESC_VALUES)
+    for _ in range(400):
+        vals.append("".join(rng.choice(ESC_VALUES + ["|", "=", " ", "x"]) for _ in range(rng.randint(2, 4))))
+    vals = [v for v in vals if "\ud800" not in v]
+    cases = [(v, ch) for v in vals for ch in "|="]
+    real = vlib.robust_map(_escape_work, cases, chunk=200, timeout=120)
+    good = [(cs, r) for cs, r in zip(cases, real) if not (isinstance(r, tuple) and r and r[0] in ("CRASH", "TIMEOUT", "PYEXC")) and r[0] is not None]
+    try:
+        model = vlib.model_run("escape", [r[0] for _cs, r in good])
+    except Exception as e:  # noqa: BLE001
+        c.broken.append({"file": "coq/extract/escape_run", "line": 0, "statement": "escape (extracted)", "error": str(e)})
+        return
+    dis = 0
+    for ((val, ch), (_enc, got)), m in zip(good, model):
+        c.cov["traces_validated_against_impl"] += 1
+        want = "" if m.strip() == "-" else "".join(chr(int(x)) for x in m.strip().split(","))
+        if got != want:
+            dis += 1
+            # the proved property on the implementation's own result: the value, rendered as a hidden/shown parameter of a
+            # template and parsed again, must still be ONE parameter
+            probe = "{{t|k=%s}}" % got if ch == "|" else "{{t|%s}}" % got
+            re_ = M.parse(probe).nodes[0] if len(M.parse(probe).nodes) == 1 else None
+            ok = re_ is not None and hasattr(re_, "params") and len(re_.params) == 1 and (ch == "|" or not re_.params[0].showkey)
+            if not ok and not got.startswith("EXC"):
+                c.fail("_surface_escape(%r, %r) gives %r: as a parameter value it is split at an unprotected %r (the model gives %r)" % (val, ch, got, ch, want),
+                       {"escape_case": [val, ch]})
+            elif dis <= 3:
+                c.broken.append({"file": "correspondence _surface_escape", "line": 0, "statement": "escape (model tie)",
+                                 "error": "value %r char %r: model %r vs implementation %r" % (val, ch, want, got)})
+    c.notes["escape_model_disagreements"] = dis
+
+
 def one_history(seed):
     import mwparserfromhell as M
     rng = random.Random(seed)
@@ -200,6 +286,7 @@ def run(tier, seed):
                 if dis <= 3:
                     c.broken.append({"file": "correspondence Template.add/remove", "line": 0, "statement": "step (model tie)",
                                      "error": "history %r: model %r vs implementation %r" % (hist, mm, rec)})
+    escape_tie(c, seed)
     import hidekey
     hk = vlib.robust_map(hidekey.work, [0], chunk=1, timeout=240)[0]
     if isinstance(hk, tuple) and hk and hk[0] in ("CRASH", "TIMEOUT", "PYEXC"):
@@ -222,6 +309,10 @@ def run(tier, seed):
 
 
 def replay(data):
+    if "escape_case" in data["data"]:
+        vlib.pure_python_parser()
+        print(_escape_work([tuple(data["data"]["escape_case"])]))
+        return 1
     if data["data"].get("probe") == "hidekey":
         import hidekey
         f, _n = hidekey.probe()
